@@ -19,7 +19,8 @@ import (
 
 // obs is the API-observable content state of one repository over the names the run has used.
 type obs struct {
-	items map[string]string
+	items  map[string]string
+	faults int // injected faults seen when the observation ended
 }
 
 func (w *World) observe(repo string) *obs {
@@ -69,6 +70,7 @@ func (w *World) observe(repo string) *obs {
 	} else {
 		o.items["taglist"] = "!"
 	}
+	o.faults = len(w.x.sim.FS.Fired)
 	return o
 }
 
@@ -76,7 +78,11 @@ func (w *World) compareObs(repo string, pre *obs, props []string, oracle, sig st
 	if pre == nil {
 		return
 	}
+	f0 := len(w.x.sim.FS.Fired)
 	post := w.observe(repo)
+	if post.faults != f0 || w.tainted[repo] || w.tainted["*"] {
+		return // an injected disk fault disturbed the observation (or the request): state equality is not claimed
+	}
 	var diffs []string
 	for k, v := range pre.items {
 		if post.items[k] != v {
@@ -118,6 +124,20 @@ func (w *World) checkState(final bool) {
 		if !reRepo.MatchString(repo) {
 			continue
 		}
+		if w.tainted[repo] {
+			// a disk fault hit this repository: un-acknowledged state is not modelled; content that is served is still
+			// checked against its digest by the generic oracle
+			q := w.quiet
+			w.quiet = true
+			for _, d := range sortedKeys(w.m.usedDigests) {
+				if validDigest(d) {
+					w.opGet(Op{K: "get", Mode: "blob", Repo: ri, S: d})
+					w.opGet(Op{K: "get", Mode: "man", Repo: ri, S: d, Accept: "all"})
+				}
+			}
+			w.quiet = q
+			continue
+		}
 		for _, d := range sortedKeys(w.m.usedDigests) {
 			if !validDigest(d) {
 				continue
@@ -157,7 +177,10 @@ func (w *World) checkSessions() {
 		return
 	}
 	for _, s := range w.m.sess {
-		if s.open && s.maybeGone {
+		if !s.open || s.tainted {
+			continue
+		}
+		if mustAlive, _ := w.sessLive(s); !mustAlive {
 			w.sessStatus(s, "")
 		}
 	}
@@ -166,6 +189,9 @@ func (w *World) checkSessions() {
 	}
 	perRepo := map[string]int{}
 	for _, s := range w.m.sess {
+		if s.tainted {
+			w.tainted[s.repo] = true
+		}
 		if s.open {
 			perRepo[s.repo]++
 		}
@@ -292,6 +318,9 @@ const (
 func (w *World) checkLayout(afterGC bool) {
 	if w.root == "" || w.k.Store != "dir" {
 		return
+	}
+	if _, seeded := w.x.p.Extra["seed_layout"]; seeded || w.tainted["*"] {
+		return // pre-seeded (possibly corrupt or legacy) directories and faulted runs are not judged as layouts here
 	}
 	for _, repo := range w.allRepoNames() {
 		w.checkRepoLayout(repo, afterGC)
